@@ -40,6 +40,11 @@
                                      — the same after any history of requests on the interface object (what is
                                        in `_q` or in the socket was delivered at some point of the history)
   * `attribution_sound_i2c`, `attribution_sound_probe` — ipmb-dev / Aardvark, `is_ipmc_accessible` included
+  * `routed_target_refused_i2c`      — ipmb-dev / Aardvark, repaired source (fixes/C09-2.diff, `refuseRouted`): a request or
+                                       probe for a target whose routing has more than one hop raises NotSupportedError
+                                       and leaves NO trace — nothing written, nothing read, sequence number untouched;
+                                       every other request is exactly what it was (the i2c theorems below are stated for
+                                       requests that are not refused)
   * `seq_distinct_rmcp`, `seq_distinct_i2c`, `seq_distinct_probe`
                                      — new sequence number ≠ previous one, at least one request is written and
                                        every copy carries that number in byte 4
@@ -117,7 +122,8 @@ theorem source_shape_rmcp :
 
 /-- `IpmbDev._send_and_receive`, `IpmbDev._receive_raw` and `IpmbDev.is_ipmc_accessible` of the working
 tree are the functions `Loops.i2cRequest` / `i2cAttempts` / `recvRaw` (with `lenByte = true`) /
-`i2cProbe` (with `inc = true`) mirror. -/
+`i2cProbe` (with `inc = true`) mirror; both functions that are handed a target begin with the guard
+`i2cRefuses` mirrors (`refuseRouted = true`). -/
 theorem source_shape_ipmbdev :
     Gen.Loops04.ipmbdevSendAndReceive = Loops.Shape.ipmbdevSendAndReceive ∧
     Gen.Loops04.ipmbdevReceiveRaw = Loops.Shape.ipmbdevReceiveRaw ∧
@@ -139,7 +145,8 @@ def lockBody (f : Fun) : B :=
 open PyIpmi.LoopAst in
 /-- Read off the GENERATED functions (not the expected ones): every function that puts a request on
 the wire — the two `is_ipmc_accessible` included — advances the sequence number exactly once; on
-ipmb-dev / Aardvark that is the first statement, in RMCP the first statement INSIDE the lock block, which
+ipmb-dev / Aardvark that is the first statement after the guard that refuses a target behind a bridge (the
+guard itself is the first statement), in RMCP the first statement INSIDE the lock block, which
 is the first statement of the function (nothing that touches the counter happens outside the lock); the
 RMCP loop takes from `_q` in one place, never puts anything into it, drains the socket once, sends in one
 place and receives in one place; `_drain_socket` reads the socket in one place; ipmb-dev / Aardvark send
@@ -150,7 +157,8 @@ theorem source_facts :
       f.body.calls .u_inc_sequence_number = 1) ∧
     (∀ f ∈ [Gen.Loops04.ipmbdevSendAndReceive, Gen.Loops04.aardvarkSendAndReceive,
         Gen.Loops04.ipmbdevIsIpmcAccessible, Gen.Loops04.aardvarkIsIpmcAccessible],
-      f.body.head? = some (.expr (.call (.attr .self_ .u_inc_sequence_number) .nil))) ∧
+      f.body.head? = some Loops.Shape.routedGuard ∧
+      f.body.tail.head? = some (.expr (.call (.attr .self_ .u_inc_sequence_number) .nil))) ∧
     (lockBody Gen.Loops04.rmcpSendAndReceive).head? = some (.expr (.call (.attr .self_ .u_inc_sequence_number) .nil)) ∧
     (lockBody Gen.Loops04.rmcpSendAndReceive).calls .u_inc_sequence_number = 1 ∧
     (lockBody Gen.Loops04.rmcpSendAndReceive).calls .u_drain_socket = 1 ∧
@@ -360,23 +368,29 @@ prefix): data is returned only if it is the data of an intact reply to this requ
 (sequence number always compared) among the frames read during the request. -/
 theorem attribution_sound_i2c (cfg : I2cCfg) (nextSeq : Nat) (req : Req) (evs : List I2cEvent) (d : Frame)
     (hn : req.netfn % 2 = 0) (h : (i2cRequest cfg nextSeq req evs).out = .ok d) :
-    ∃ f ∈ i2cFramesOf evs, isReplyTo true (ridOf req ((nextSeq + 1) % 64)) f ∧ d = replyData f :=
-  i2cAttempts_ok cfg (mkHdr cfg.slaveAddr req (i2cIncSeq nextSeq)) hn (i2cFramesOf evs) cfg.attempts evs 0
-    (fun _ hx => hx) d h
+    ∃ f ∈ i2cFramesOf evs, isReplyTo true (ridOf req ((nextSeq + 1) % 64)) f ∧ d = replyData f := by
+  unfold i2cRequest at h
+  split at h
+  · cases h
+  · exact i2cAttempts_ok cfg (mkHdr cfg.slaveAddr req (i2cIncSeq nextSeq)) hn (i2cFramesOf evs) cfg.attempts evs 0
+      (fun _ hx => hx) d h
 
 /-- the sequence number an `is_ipmc_accessible` probe carries -/
 def probeSeq (inc : Bool) (nextSeq : Nat) : Nat := if inc then (nextSeq + 1) % 64 else nextSeq
 
 /-- `is_ipmc_accessible` (either variant) says "accessible" only on an intact reply to ITS Get Device ID —
 the sequence number it carries included — among the frames read during the probe. -/
-theorem attribution_sound_probe (cfg : I2cCfg) (inc : Bool) (nextSeq rsSa : Nat) (evs : List I2cEvent) (d : Frame)
-    (h : (i2cProbe cfg inc nextSeq rsSa evs).out = .ok d) :
+theorem attribution_sound_probe (cfg : I2cCfg) (inc : Bool) (nextSeq rsSa : Nat) (evs : List I2cEvent)
+    (routing : List Hop) (d : Frame) (h : (i2cProbe cfg inc nextSeq rsSa evs routing).out = .ok d) :
     ∃ f ∈ i2cFramesOf evs, isReplyTo true (ridOf (probeReq rsSa) (probeSeq inc nextSeq)) f := by
   have hseq : (if inc then i2cIncSeq nextSeq else nextSeq) = probeSeq inc nextSeq := by
     cases inc <;> rfl
   have hr := recvRaw_ok cfg (mkHdr cfg.slaveAddr (probeReq rsSa) (if inc then i2cIncSeq nextSeq else nextSeq))
     (by simp [mkHdr, probeReq]) (i2cFramesOf evs) 0 evs (fun _ hx => hx)
   simp only [i2cProbe] at h
+  split at h
+  · cases h
+  rename_i hrf
   split at h
   · rename_i f rest heq
     rw [heq] at hr
@@ -414,16 +428,30 @@ theorem seq_distinct_rmcp (cfg : Cfg) (st : IfState) (req : Req) (evs : List RxE
     rw [(List.mem_replicate.mp htx).2]
     exact byte4_txData cfg req _
 
-/-- ipmb-dev / Aardvark: same rule; every frame written carries the new number. -/
-theorem seq_distinct_i2c (cfg : I2cCfg) (nextSeq : Nat) (req : Req) (evs : List I2cEvent) :
+/-- ipmb-dev / Aardvark, repaired source (`refuseRouted = true`, fixes/C09-2.diff): these transports do not
+bridge; a request or an `is_ipmc_accessible` probe for a target whose routing has more than one hop raises
+NotSupportedError and leaves NO trace: nothing is written (no un-bridged request reaches the local bus),
+nothing is read, the sequence number is not used up. -/
+theorem routed_target_refused_i2c (cfg : I2cCfg) (hc : cfg.refuseRouted = true) (nextSeq : Nat) (req : Req)
+    (evs : List I2cEvent) (inc : Bool) (hr : 1 < req.routing.length) :
+    i2cRequest cfg nextSeq req evs = { nextSeq := nextSeq, out := .notSupported, tx := [], rest := evs } ∧
+    i2cProbe cfg inc nextSeq req.rsSa evs req.routing =
+      { nextSeq := nextSeq, out := .notSupported, tx := [], rest := evs } := by
+  have h := (i2cRefuses_iff cfg req.routing).2 ⟨hc, hr⟩
+  exact ⟨i2cRequest_refused cfg nextSeq req evs h, i2cProbe_refused cfg inc nextSeq req.rsSa evs req.routing h⟩
+
+/-- ipmb-dev / Aardvark: same rule; every frame written carries the new number (a request that is not
+refused: `routed_target_refused_i2c`). -/
+theorem seq_distinct_i2c (cfg : I2cCfg) (nextSeq : Nat) (req : Req) (evs : List I2cEvent)
+    (hr : i2cRefuses cfg req.routing = false) :
     (i2cRequest cfg nextSeq req evs).nextSeq = (nextSeq + 1) % 64 ∧
     (i2cRequest cfg nextSeq req evs).nextSeq ≠ nextSeq ∧
     ∀ tx ∈ (i2cRequest cfg nextSeq req evs).tx, byte tx 4 / 4 = (nextSeq + 1) % 64 := by
+  rw [i2cRequest_not_refused cfg nextSeq req evs hr]
   refine ⟨rfl, ?_, ?_⟩
   · show (nextSeq + 1) % 64 ≠ nextSeq
     omega
   · intro tx htx
-    simp only [i2cRequest] at htx
     rw [(List.mem_replicate.mp htx).2, byte4_encodeIpmbMsg]
     have hs : i2cIncSeq nextSeq = (nextSeq + 1) % 64 := rfl
     simp only [mkHdr, hs]
@@ -432,11 +460,12 @@ theorem seq_distinct_i2c (cfg : I2cCfg) (nextSeq : Nat) (req : Req) (evs : List 
 /-- `is_ipmc_accessible` on ipmb-dev / Aardvark (repaired source, `inc = true`): the probe is a request
 like any other — it advances the sequence number, exactly one frame is written and it carries the new
 number, whatever happens afterwards. -/
-theorem seq_distinct_probe (cfg : I2cCfg) (nextSeq rsSa : Nat) (evs : List I2cEvent) :
-    (i2cProbe cfg true nextSeq rsSa evs).nextSeq = (nextSeq + 1) % 64 ∧
-    (i2cProbe cfg true nextSeq rsSa evs).nextSeq ≠ nextSeq ∧
-    (i2cProbe cfg true nextSeq rsSa evs).tx.length = 1 ∧
-    ∀ tx ∈ (i2cProbe cfg true nextSeq rsSa evs).tx, byte tx 4 / 4 = (nextSeq + 1) % 64 := by
+theorem seq_distinct_probe (cfg : I2cCfg) (nextSeq rsSa : Nat) (evs : List I2cEvent) (routing : List Hop)
+    (hr : i2cRefuses cfg routing = false) :
+    (i2cProbe cfg true nextSeq rsSa evs routing).nextSeq = (nextSeq + 1) % 64 ∧
+    (i2cProbe cfg true nextSeq rsSa evs routing).nextSeq ≠ nextSeq ∧
+    (i2cProbe cfg true nextSeq rsSa evs routing).tx.length = 1 ∧
+    ∀ tx ∈ (i2cProbe cfg true nextSeq rsSa evs routing).tx, byte tx 4 / 4 = (nextSeq + 1) % 64 := by
   have key : ∀ s : Nat, byte (encodeIpmbMsg (mkHdr cfg.slaveAddr (probeReq rsSa) s) []) 4 / 4 = s := by
     intro s
     rw [byte4_encodeIpmbMsg]
@@ -449,7 +478,7 @@ theorem seq_distinct_probe (cfg : I2cCfg) (nextSeq rsSa : Nat) (evs : List I2cEv
     intro tx h
     simp only [List.mem_singleton] at h
     rw [h, key, hs]
-  simp only [i2cProbe, if_true]
+  simp only [i2cProbe, hr, Bool.false_eq_true, if_false, if_true]
   split <;> exact ⟨hs, hne, rfl, htx⟩
 
 /-- As shipped (`inc = false`) it does not: after a request with sequence number 1 the probe is written
@@ -619,7 +648,8 @@ theorem no_poisoning : NoPoisoning Cfg.Repaired := by
 interfaces have — nothing received earlier can matter): after fewer failed attempts than
 the retry count (each: unrelated frames taking less than the timeout, then an empty poll or
 a read error), unrelated frames taking less than the timeout and then the reply — the
-reply's data is returned and exactly the events up to the reply were consumed. -/
+reply's data is returned and exactly the events up to the reply were consumed (every request the
+transport does not refuse, `routed_target_refused_i2c`). -/
 theorem finds_match_after_noise_i2c (cfg : I2cCfg) (nextSeq : Nat) (req : Req) (hn : req.netfn % 2 = 0)
     (rounds : List (List I2cEvent × I2cEvent)) (noise : List I2cEvent) (dt : Nat) (reply : Frame)
     (rest : List I2cEvent)
@@ -627,12 +657,13 @@ theorem finds_match_after_noise_i2c (cfg : I2cCfg) (nextSeq : Nat) (req : Req) (
     (hrounds : ∀ p ∈ rounds, I2cNoise (mkHdr cfg.slaveAddr req ((nextSeq + 1) % 64)) p.1 ∧
       dtSum p.1 < cfg.timeout ∧ I2cFail p.2)
     (hnoise : I2cNoise (mkHdr cfg.slaveAddr req ((nextSeq + 1) % 64)) noise) (ht : dtSum noise < cfg.timeout)
-    (hreply : isReplyTo true (ridOf req ((nextSeq + 1) % 64)) reply) :
+    (hreply : isReplyTo true (ridOf req ((nextSeq + 1) % 64)) reply)
+    (hrt : i2cRefuses cfg req.routing = false) :
     let r := i2cRequest cfg nextSeq req (failedRounds rounds ++ (noise ++ .frame dt reply :: rest))
     r.out = .ok (replyData reply) ∧ r.rest = rest ∧ r.tx.length = rounds.length + 1 := by
   have key := i2cAttempts_rounds cfg (mkHdr cfg.slaveAddr req (i2cIncSeq nextSeq)) hn rounds cfg.attempts
     noise dt reply rest 0 hr hrounds hnoise ht hreply
-  simp only [i2cRequest]
+  simp only [i2cRequest_not_refused _ _ _ _ hrt]
   rw [key]
   exact ⟨rfl, rfl, by simp⟩
 
@@ -684,5 +715,15 @@ example : (i2cRequest I2cCfg.ipmbdev 0 wReq
 request is not its answer; as shipped it carries 1 and the late reply makes it say "accessible" -/
 example : (i2cProbe I2cCfg.ipmbdev true 1 0x20 [.frame 2 wReply1]).out = .timeoutError ∧
     (i2cProbe I2cCfg.ipmbdev false 1 0x20 [.frame 2 wReply1]).out = .ok [] := by decide
+
+/-- a target behind a bridge on ipmb-dev: refused by the repaired source, nothing written; as shipped the
+un-bridged request went to 72h on the local bus -/
+example : (i2cRequest I2cCfg.ipmbdev 0 { wReq with rsSa := 0x72, routing := [⟨0x20, 0x82, 7⟩, ⟨0x20, 0x72, 0⟩] } []).tx = [] ∧
+    (i2cRequest I2cCfg.ipmbdev 0 { wReq with rsSa := 0x72, routing := [⟨0x20, 0x82, 7⟩, ⟨0x20, 0x72, 0⟩] } []).out
+      = .notSupported ∧
+    (i2cRequest { I2cCfg.ipmbdev with refuseRouted := false } 0
+      { wReq with rsSa := 0x72, routing := [⟨0x20, 0x82, 7⟩, ⟨0x20, 0x72, 0⟩] } []).tx.head?
+      = some [0x72, 0x18, 0x76, 0x20, 0x04, 0x01, 0xdb] ∧
+    i2cRefuses I2cCfg.ipmbdev wReq.routing = false ∧ i2cRefuses I2cCfg.aardvark [⟨0x20, 0x72, 0⟩] = false := by decide
 
 end PyIpmi.Props.C04
